@@ -322,3 +322,250 @@ class Memory(Observer):
             if pool.get_consumed_ram_gb() != tot:
                 return "C04:reported_usage_differs"
         return ""
+
+
+def _ready(op):
+    return all(par.state() == S.COMPLETED for par in op.parents)
+
+
+def _snapshot(w):
+    return [(pool.avail_cpu_pool, pool.avail_ram_pool) for pool in w.executor.pools]
+
+
+class FirstInOrder:
+    """Shared helper: pipelines get their FIRST container in arrival order (optionally per class)."""
+
+    def __init__(self, per_class):
+        self.per_class = per_class
+        self.started = []       # pipelines in order of first assignment
+
+    def note(self, w, asg, tag):
+        for a in asg:
+            p = a.ops[0].pipeline
+            if not any(p is q for q in self.started):
+                self.started.append(p)
+        # started order must be a prefix-compatible subsequence of arrival order
+        classes = [None]
+        if self.per_class:
+            classes = [Priority.QUERY, Priority.INTERACTIVE, Priority.BATCH_PIPELINE]
+        for cl in classes:
+            arr = [p for p in w.pipes if cl is None or p.priority == cl]
+            st = [p for p in self.started if cl is None or p.priority == cl]
+            # every started pipeline: all earlier arrivals of the class have started too
+            for k, p in enumerate(arr):
+                if any(p is q for q in st):
+                    for e in arr[:k]:
+                        if not any(e is q for q in st):
+                            return f"{tag}:first_container_out_of_arrival_order"
+            idx = [next(i for i, q in enumerate(arr) if q is p) for p in st]
+            if idx != sorted(idx):
+                return f"{tag}:first_container_out_of_arrival_order"
+        return ""
+
+
+class Naive(Observer):
+    """C17."""
+
+    def __init__(self):
+        self.fio = FirstInOrder(per_class=False)
+
+    def before_sched(self, w, results, new):
+        self.snap = _snapshot(w)
+        self.failed_before = set(id(p) for p in w.pipes
+                                 if p.runtime_status().state_counts[S.FAILED] > 0)
+        return ""
+
+    def after_sched(self, w, sus, asg, new):
+        if sus:
+            return "C17:naive_suspended_a_container"
+        per_pool = {}
+        for a in asg:
+            per_pool[a.pool_id] = per_pool.get(a.pool_id, 0) + 1
+            if per_pool[a.pool_id] > 1:
+                return "C17:two_containers_for_one_pool_in_one_tick"
+            if not (0 <= a.pool_id < len(self.snap)):
+                return "C17:assignment_to_unknown_pool"
+            cpu0, ram0 = self.snap[a.pool_id]
+            if a.cpu != cpu0 or a.ram != ram0:
+                return "C17:container_not_given_all_free_resources"
+            if id(a.ops[0].pipeline) in self.failed_before:
+                return "C17:work_assigned_after_a_failure"
+            if not w.params["multi_operator_containers"]:
+                if len(a.ops) != 1:
+                    return "C17:single_operator_mode_got_several_operators"
+                if not _ready(a.ops[0]):
+                    return "C17:single_operator_not_ready"
+            if len(a.ops) >= 2:
+                w.seen.add("multi_asg")
+        if len(asg) >= 2:
+            w.seen.add("two_pools")
+        return self.fio.note(w, asg, "C17")
+
+
+class Overbook(Observer):
+    """C18."""
+
+    def __init__(self):
+        self.failures = {}
+
+    def before_sched(self, w, results, new):
+        self.snap = _snapshot(w)
+        for r in results:
+            if r.failed():
+                pid = r.ops[0].pipeline.pipeline_id
+                self.failures[pid] = self.failures.get(pid, 0) + 1
+                if self.failures[pid] >= 3:
+                    w.seen.add("abandoned")
+        self.triggered = bool(results) or bool(new)
+        return ""
+
+    def after_sched(self, w, sus, asg, new):
+        if sus:
+            return "C18:overbook_suspended_a_container"
+        used = [0] * len(self.snap)
+        for a in asg:
+            if len(a.ops) != 1:
+                return "C18:container_with_several_operators"
+            if not _ready(a.ops[0]):
+                return "C18:operator_not_ready"
+            if a.cpu != 1:
+                return "C18:container_cpu_not_one"
+            if not (0 <= a.pool_id < len(self.snap)):
+                return "C18:assignment_to_unknown_pool"
+            if a.ram != w.executor.pools[a.pool_id].max_ram_pool:
+                return "C18:memory_limit_not_whole_pool"
+            if self.failures.get(a.ops[0].pipeline.pipeline_id, 0) >= 3:
+                return "C18:abandoned_pipeline_assigned_again"
+            used[a.pool_id] += 1
+        for i in range(len(self.snap)):
+            if used[i] > self.snap[i][0]:
+                return "C18:more_containers_than_free_cpus"
+        if self.triggered:
+            free = any(self.snap[i][0] - used[i] >= 1 for i in range(len(self.snap)))
+            if free:
+                for (p, op) in w.all_ops:
+                    if self.failures.get(p.pipeline_id, 0) >= 3:
+                        continue
+                    if op.state() in (S.PENDING, S.FAILED) and _ready(op):
+                        return "C18:ready_operator_waits_while_cpu_free"
+        return ""
+
+    def after_exec(self, w, results, sus, asg):
+        for pool in w.executor.pools:
+            if len(pool.active_containers) > pool.max_cpu_pool:
+                return "C18:more_containers_than_cpus"
+        return ""
+
+
+class PrioPool(Observer):
+    """C16."""
+
+    def __init__(self):
+        self.retry = {}      # id(op) -> (list of ops to retry together, old_cpu, old_ram)
+
+    def before_sched(self, w, results, new):
+        for r in results:
+            if r.failed():
+                rest = [op for op in r.ops if op.state() != S.COMPLETED]
+                for op in rest:
+                    self.retry[id(op)] = (rest, r.cpu, r.ram, r.pool_id)
+                w.seen.add("oom")
+        return ""
+
+    def after_sched(self, w, sus, asg, new):
+        if sus:
+            return "C16:priority_pool_suspended_a_container"
+        for a in asg:
+            pr = a.ops[0].pipeline.priority
+            want_pool = 1 if pr == Priority.BATCH_PIPELINE else 0
+            if a.pool_id != want_pool:
+                return "C16:container_on_wrong_pool"
+            if a.priority != pr:
+                return "C16:assignment_priority_differs_from_pipeline"
+            for op in a.ops:
+                if op.pipeline is not a.ops[0].pipeline:
+                    return "C16:mixed_pipelines"
+            hit = [op for op in a.ops if id(op) in self.retry]
+            if hit:
+                rest, oc, orr, opool = self.retry[id(hit[0])]
+                if len(rest) != len(a.ops) or any(x is not y for x, y in zip(rest, a.ops)):
+                    return "C16:retry_is_not_exactly_the_unfinished_operators"
+                pool = w.executor.pools[a.pool_id]
+                if 2 * oc * 2 >= pool.max_cpu_pool or 2 * orr * 2 >= pool.max_ram_pool:
+                    return "C16:retry_assigned_although_doubled_request_reaches_half_pool"
+                w.seen.add("retry")
+                for op in a.ops:
+                    self.retry.pop(id(op), None)
+        return ""
+
+
+class PriorityRound(Observer):
+    """C12 (also used for pool 0 of priority-pool with pooled=True)."""
+
+    def __init__(self, pooled=False):
+        self.pooled = pooled
+        self.fio = FirstInOrder(per_class=True)
+
+    def before_sched(self, w, results, new):
+        self.snap = _snapshot(w)
+        return ""
+
+    def _pools_for(self, w, prio):
+        n = len(self.snap)
+        if not self.pooled:
+            return list(range(n))
+        return [1] if prio == Priority.BATCH_PIPELINE else [0]
+
+    def after_sched(self, w, sus, asg, new):
+        used_cpu = [0] * len(self.snap)
+        used_ram = [0] * len(self.snap)
+        for a in asg:
+            if 0 <= a.pool_id < len(self.snap):
+                used_cpu[a.pool_id] = used_cpu[a.pool_id] + a.cpu
+                used_ram[a.pool_id] = used_ram[a.pool_id] + a.ram
+        waiting = []        # ready PENDING operators left after the round
+        for (p, op) in w.all_ops:
+            if op.state() == S.PENDING and _ready(op):
+                waiting.append((p, op))
+        # (i) strict priority
+        for a in asg:
+            for (p, op) in waiting:
+                if p.priority.value < a.priority.value:
+                    if (not self.pooled) or (set(self._pools_for(w, p.priority)) & {a.pool_id}):
+                        return "C12:lower_priority_assigned_while_higher_waits"
+        # (iii) work conservation
+        for (p, op) in waiting:
+            for i in self._pools_for(w, p.priority):
+                fc = self.snap[i][0] - used_cpu[i]
+                fr = self.snap[i][1] - used_ram[i]
+                if fc > 0 and fr > 0:
+                    return "C12:ready_operator_waits_while_pool_has_room"
+            w.seen.add("waiting")
+        # (iv) suspensions
+        if sus:
+            if self.pooled:
+                return "C12:priority_pool_suspended_a_container"
+            qwait = 0
+            for (p, op) in w.all_ops:
+                if p.priority == Priority.QUERY and op.state() in (S.PENDING, S.FAILED) and _ready(op):
+                    qwait += 1
+            if qwait == 0:
+                return "C12:suspension_without_waiting_query"
+            if len(sus) > qwait:
+                return "C12:more_suspensions_than_waiting_query_jobs"
+            names = set()
+            for s_ in sus:
+                if not (0 <= s_.pool_id < len(w.executor.pools)):
+                    return "C12:suspend_names_unknown_pool"
+                c = w.executor.pools[s_.pool_id].get_container_by_id(s_.container_id)
+                if c is None:
+                    return "C12:suspend_names_container_that_is_not_running"
+                if c.priority == Priority.QUERY:
+                    return "C12:query_container_suspended"
+                if not c.can_suspend_container():
+                    return "C12:suspend_not_at_operator_boundary"
+                if s_.container_id in names:
+                    return "C12:container_suspended_twice"
+                names.add(s_.container_id)
+        # (ii) arrival order inside a class
+        return self.fio.note(w, asg, "C12")
